@@ -1841,6 +1841,17 @@ fn ensure_seq(w: &mut World, prevseq: u64) {
 }
 
 fn exec_in(w: &mut World, op: &str, out: &mut Out) -> String {
+    if w.inner.birth_fails.is_some() {
+        // `PropertySet::new()` / `default()` are `new_with_quality(Quality::Good)`
+        let show = |ps: PropertySet| {
+            let pp: payload::PropertySet = ps.into();
+            show_pset(&pset_from_srad(&pp), true)
+        };
+        let want = show(PropertySet::new_with_quality(Quality::Good));
+        if show(PropertySet::new()) != want || show(PropertySet::default()) != want {
+            out.fail("C12:props-same-map", "default-property-set", format!("PropertySet::new() = {}, default() = {}, new_with_quality(Good) = {}", show(PropertySet::new()), show(PropertySet::default()), want));
+        }
+    }
     if let Some(fails) = w.inner.birth_fails.take() {
         for f in fails {
             out.fail("C12:birth-metric-delivered", "metadata-properties-timestamp", f);
